@@ -77,6 +77,10 @@ for _in in (True, False):
                           encodes=["hypnotoad.core.mesh:MeshRegion.__init__"],
                           desc="the points sharing poloidal index m on successive surfaces all come from the single followPerpendicular call started at skeleton point m",
                           stubs=["followPerpendicular -> tagged points"], bounds="3x3"))
+OBLIGATIONS.append(Ob("integrated_field_evaluated_at_the_current_point", c18.ob_closure_arguments, tier="quick", family="closures",
+                      encodes=["hypnotoad.core.equilibrium:Equilibrium.magneticFunctionsFromGrid"],
+                      desc="f_R, f_Z evaluate the interpolant at the point handed to them (clip to the grid box is the identity inside the box)",
+                      stubs=["RectBivariateSpline -> table, arguments recorded", "numpy.clip -> scalar clip"], bounds="grid extent and point symbolic, point inside the box"))
 OBLIGATIONS.append(Ob("integrated_field_is_gradpsi_over_gradpsi_squared", c18.ob_closures, tier="quick", family="closures",
                       encodes=["hypnotoad.core.equilibrium:Equilibrium.magneticFunctionsFromGrid"], desc="f_R, f_Z = grad(psi)/|grad(psi)|^2, so psi is the integration variable",
                       stubs=["RectBivariateSpline -> table"], bounds="point inside the box"))
